@@ -378,6 +378,23 @@ func propC10(c *Ctx) {
 			runTplCase(c, ast, src, randVars(c), "generated-template")
 		}
 	}
+	// text at the very edges of a template: only blank, tab, CR and LF are trimmed; every other space-like or invisible
+	// character is text and is rendered
+	for _, ws := range []string{"\u00a0", "\u3000", "\f", "\v", "\u0085", "\u2028", "\u2029", "\u1680", "\u2003", "\u202f", "\u205f", "\ufeff", "\x00", "\x1f", "\x7f", " \u00a0", "\u00a0 ", "\u200b"} {
+		for _, mk := range []func() []*tnode{
+			func() []*tnode { return []*tnode{{k: 't', text: ws}} },
+			func() []*tnode {
+				return []*tnode{{k: 't', text: ws + "Hello, "}, {k: 'v', text: "name", open: "{{name}}"}, {k: 't', text: "!" + ws}}
+			},
+			func() []*tnode {
+				return []*tnode{{k: 't', text: ws}, {k: 's', text: "a", open: "{{#a}}", close: "{{/a}}", kids: []*tnode{{k: 't', text: ws + "x" + ws}}}, {k: 't', text: ws}}
+			},
+			func() []*tnode { return []*tnode{{k: 'v', text: "name", open: "{{name}}"}, {k: 't', text: ws}} },
+		} {
+			ast := mk()
+			runTplCase(c, ast, printTpl(ast), map[string]string{"name": "World", "a": "1"}, "edge-character")
+		}
+	}
 	// accept / reject: every string over the lexeme alphabet up to a bounded length
 	maxL := 4
 	if c.Thorough {
